@@ -20,7 +20,8 @@ def name_of(cfg):
             f"/col={k.get('colocate_factors', True)}/"
             f"{k.get('assignment_strategy', 'compute')}/cap="
             f"{k.get('allreduce_bucket_cap_mb', 25.0)}/sym="
-            f"{k.get('symmetry_aware', False)}/{K.method_of(cfg)}")
+            f"{k.get('symmetry_aware', False)}/{K.method_of(cfg)}/idt="
+            f"{k.get('inv_dtype')}/fdt={k.get('factor_dtype')}")
 
 
 def divisors(n):
@@ -164,6 +165,21 @@ def configs(thorough, seed):
                             'world': world, 'seed': seed, 'kfac': kk,
                             'history': [['train']] * (2 if world > 4
                                                       else 3)})
+    # second-order / factor dtypes that differ from the parameter dtype
+    for world in (2, 4):
+        for frac, (m, pre), (idt, fdt), cap, sym in itertools.product(
+                ['COMM_OPT', 'MEM_OPT'] + (['HYBRID_OPT'] if world == 4
+                                           else []),
+                methods, [('f64', None), ('f64', 'f64'), ('f32', 'f64')],
+                (0.0, 25.0), (False, True)):
+            kk = base_kfac(m, pre)
+            kk.update(grad_worker_fraction=frac, inv_dtype=idt,
+                      allreduce_bucket_cap_mb=cap, symmetry_aware=sym)
+            if fdt:
+                kk['factor_dtype'] = fdt
+            out.append({'model': 'mlp3', 'dtype': 'f32', 'batch': 2,
+                        'world': world, 'seed': seed, 'kfac': kk,
+                        'history': [['train']] * 2})
     return out
 
 
